@@ -25,22 +25,22 @@ var Registry = map[string]func(*core.Prog, *core.Report){
 	"C04": with(C04, batchGroup, frameGroup, ps3Rotate),
 	"C05": with(C05, batchGroup),
 	"C06": with(C06, mergeGroup),
-	"C07": with(C07, mergeGroup, mergeFlagRules),
+	"C07": with(C07, mergeGroup, mergeFlagRules, rm1RemovalTargets),
 	"C08": with(C08, func(p *core.Prog, rep *core.Report) {
 		newVF(p, rep).vf2(nil)
 	}, pool2SingleRelease, cd7LogicalSize),
-	"C09": with(C09, pool2SingleRelease, bt1PutType, lk13BackendState),
+	"C09": with(C09, pool2SingleRelease, pool3BufferSingleRelease, bt1PutType, lk13BackendState),
 	"C10": C10,
 	"C11": with(C11, frameGroup),
 	"C12": with(C12, frameGroup),
 	"C13": with(C13, cfg1OptionsImmutable),
-	"C14": with(C14, cfg1OptionsImmutable, mg3Only, cf2RecoveryIgnoresLimit),
-	"C15": with(C15, pool2SingleRelease, rt2Decoded),
-	"C16": C16,
+	"C14": with(C14, cfg1OptionsImmutable, mg3Only, cf2RecoveryIgnoresLimit, batchGroup),
+	"C15": with(C15, pool2SingleRelease, pool3BufferSingleRelease, rt2Decoded),
+	"C16": with(C16, rm1RemovalTargets),
 	"C17": with(C17, bt3FlushLoopComplete),
 	"C18": with(C18, mergeGroup),
 	"C19": with(C19, batchGroup),
-	"C20": with(C20, ps5MergeOnly, lk13BackendState),
+	"C20": with(C20, ps5MergeOnly, lk13BackendState, vf3MergeOnly),
 }
 
 // mg3Only: Merge's liveness test compares the complete position (C14: the file-size limit decides how many files a
@@ -73,4 +73,10 @@ func mergeFlagRules(p *core.Prog, rep *core.Report) {
 	if n == 0 {
 		rep.Unk("VAC", "LK4", "merge-flag obligations expected", "", "none found")
 	}
+}
+
+// vf3MergeOnly: Merge rewrites records untagged (C20: a backup has no sibling merge directory, so Open scans the
+// rewritten files instead of trusting the hint; tagged records would wait for a seal that Merge never rewrites).
+func vf3MergeOnly(p *core.Prog, rep *core.Report) {
+	newVF(p, rep).vf3Merge()
 }
